@@ -60,6 +60,24 @@ def sig_of(d):
             "has_keys": (d.get("gen", {}).get(d.get("tr") or "X", 0) > 0)}
 
 
+def run_pinned(cpu, name, args, timeout=600, env=None):
+    """vlib.run_bin with the process pinned to one CPU."""
+    import shutil
+    import subprocess
+    e = dict(os.environ)
+    e["VERIF_SEED"] = str(vlib.seed())
+    if env:
+        e.update(env)
+    cmd = [vlib.bin_path(name)] + list(args)
+    if shutil.which("taskset"):
+        cmd = ["taskset", "-c", str(cpu)] + cmd
+    try:
+        return subprocess.run(cmd, cwd=vlib.ROOT, env=e, stdout=subprocess.PIPE, stderr=subprocess.PIPE, text=True,
+                              timeout=timeout)
+    except subprocess.TimeoutExpired:
+        raise vlib.ToolError(f"{name} timed out after {timeout}s")
+
+
 def nshards(tier):
     return 8 if tier == "quick" else min(16, vlib.NCPU)
 
@@ -70,12 +88,18 @@ def replay_file(ck, beh_path, label, tier, extra_env=None):
     tag = f"{label.replace('/', '_')}.{os.getpid()}"
     outs = [os.path.join(ck.dir, f"replay_{tag}.{i}.ndjson") for i in range(n)]
 
+    cpus = sorted(os.sched_getaffinity(0))
+
     def one(i):
-        return vlib.run_bin("gate", ["replay", beh_path, outs[i], f"{i}/{n}"], timeout=3000, env=extra_env)
+        # one CPU per worker: a transport's datagrams and the sentinel then share one loopback backlog queue, so
+        # arrival order = send order (the verdict does not depend on it - datagrams are attributed by content -
+        # but the exact per-step expectation (EXT) and the `late` counter do)
+        return run_pinned(cpus[i % len(cpus)], "gate", ["replay", beh_path, outs[i], f"{i}/{n}"], timeout=3000,
+                          env=extra_env)
 
     with concurrent.futures.ThreadPoolExecutor(max_workers=n) as ex:
         procs = list(ex.map(one, range(n)))
-    summ = {"behaviours": 0, "steps": 0, "datagrams": 0, "deliveries": 0, "diverged": 0}
+    summ = {"behaviours": 0, "steps": 0, "datagrams": 0, "deliveries": 0, "diverged": 0, "late": 0, "stale": 0}
     for i, p in enumerate(procs):
         if p.returncode != 0:
             raise vlib.ToolError(f"gate replayer shard {i} failed rc={p.returncode}: {p.stderr[-2000:]}")
@@ -144,7 +168,8 @@ def run(tier):
         if summ["behaviours"] != res["counts"]["REPLAY"]:
             raise vlib.ToolError(f"replayed {summ['behaviours']} of {res['counts']['REPLAY']} behaviours")
         ck.notes.append(f"{label}: {res['counts']['REPLAY']} behaviours, {summ['steps']} steps, "
-                        f"{summ['datagrams']} datagrams classified, {summ['deliveries']} deliveries traced")
+                        f"{summ['datagrams']} datagrams classified, {summ['deliveries']} deliveries traced, "
+                        f"{summ['late']} datagrams arrived after their step's sentinel, {summ['stale']} stale")
         os.remove(beh)
     ck.cov["traces_validated_against_impl"] = total
     ck.cov["distinct_nontrivial"] = len(nontriv)
